@@ -352,7 +352,8 @@ impl Value {
         match self {
             Self::Null => "null".to_string(),
             Self::Int(v) => format!("i:{v}"),
-            Self::Float(v) => format!("f:{}", v.to_bits()),
+            // Equality on floats is IEEE equality, so -0.0 and 0.0 must share one key.
+            Self::Float(v) => format!("f:{}", if *v == 0.0 { 0.0_f64 } else { *v }.to_bits()),
             Self::String(v) => {
                 let mut hasher = std::collections::hash_map::DefaultHasher::new();
                 v.hash(&mut hasher);
